@@ -167,3 +167,55 @@ def obligation(tier, props, name, modes):
         twin_every=9,
         budget_s=4.0,
     )
+
+
+# ----------------------------------------------------------------------------- larger samples through multiplicity profiles
+def h_profile(ctx, q):
+    """find_quantiles depends only on the order and the multiplicities of the values: k distinct values
+    1..k with a solver-chosen multiplicity profile (j leading/trailing/middle values of multiplicity a, the
+    others once) reach sample sizes far beyond the symbolic-row kernels."""
+    import AutoCarver.discretizers.utils.quantitative_discretizers as qd
+
+    k = [6, 10, 20, 30, 45, 60][ctx.choose("k", 6)]
+    j = ctx.choose("j", 13)
+    a = 1 + ctx.choose("a", 8)
+    where = ctx.choose("where", 3)
+    n_nan = [0, 5][ctx.choose("nan", 2)]
+    j = min(j, k)
+    if where == 0:
+        heavy = set(range(j))
+    elif where == 1:
+        heavy = set(range(k - j, k))
+    else:
+        heavy = set(range((k - j) // 2, (k - j) // 2 + j))
+    counts = [a if i in heavy else 1 for i in range(k)]
+    arr = np.array([float(i + 1) for i, c in enumerate(counts) for _ in range(c)] + [np.nan] * n_nan)
+    len_df = len(arr)
+    try:
+        quantiles = list(qd.find_quantiles(arr, q))
+    except Exception as e:
+        ctx.require(False, "C08.internal-error", f"find_quantiles raised {type(e).__name__}: {str(e)[:120]} (k={k}, j={j}, a={a}, q={q})")
+    thr = len_df / q
+    ctx.require(all(x < y for x, y in zip(quantiles, quantiles[1:])), "C08.duplicate-boundary", f"boundaries not strictly increasing: {quantiles[:8]}... (k={k}, j={j}, a={a}, q={q})")
+    ctx.require(all(b in set(arr[~np.isnan(arr)]) for b in quantiles), "C03.boundary-not-observed", "boundary is not an observed value")
+    frequent = [float(i + 1) for i, c in enumerate(counts) if c >= thr]
+    for v in frequent:
+        ctx.require(v in quantiles, "C09.frequent-value-not-boundary", f"value {v} holds >= 1/q of the rows but is not a boundary (k={k}, j={j}, a={a}, q={q})")
+    bounds = quantiles + [float("inf")]
+    lo = -float("inf")
+    for b in bounds:
+        vals_in = [(i + 1, c) for i, c in enumerate(counts) if lo < i + 1 <= b]
+        size = sum(c for _, c in vals_in)
+        if not any(float(v) in frequent for v, _ in vals_in):
+            ctx.require(size * q <= 2.5 * len_df, "C09.oversized-bucket",
+                        f"bucket ({lo}, {b}] holds {size} of {len_df} rows (> 2.5/q, q={q}) and contains no frequent value (k={k} distinct values, {j} of multiplicity {a} at {['start', 'end', 'middle'][where]})")
+        lo = b
+    return dict(counters={"ok": 1}, sample=dict(k=k, j=j, a=a, q=q, where=where, n=len_df, boundaries=len(quantiles)), result=dict(nb=len(quantiles)))
+
+
+def obligation_profile(tier, name):
+    return Obligation(
+        name=name, harness=h_profile, jobs=[dict(q=q) for q in range(2, 11)], encodes=ENC,
+        bounds="k in {6,10,20,30,45,60} distinct values, j <= 12 of them with multiplicity a <= 8 at the start / end / middle, the others once; 0/5 missing rows; q in 2..10 (samples up to ~150 rows)",
+        outside="other multiplicity profiles", twin=False, budget_s=5.0,
+    )
